@@ -32,7 +32,7 @@ ValCls   == {"fin", "zero", "neg", "inf", "nan", "tiny"}
 LenCls   == {"len0", "len1", "small", "large"}
 BasisCls == {"valid", "defect", "badenum"}
 
-MCalls == {"New", "Preset", "Free", "FreeNull", "SetTB", "Set", "SetPole", "Get", "GetTB", "GetMass", "GetMix",
+MCalls == {"New", "Preset", "Free", "FreeNull", "SetTB", "SetTachyon", "Set", "SetPole", "Get", "GetTB", "GetMass", "GetMix",
            "Convert", "ConvertParams", "CalcMasses", "Amu", "Part", "Unc", "HaveProblem", "StrGet", "SetVerbose"}
 TCalls == {"TNewMass", "TNewGauge", "TAmu", "TUnc", "TFree", "TFreeNull", "SmDefault", "ConfigDefault", "IntToType"}
 
@@ -42,13 +42,13 @@ NeedsTB == {"GetTB", "Convert", "ConvertParams", "CalcMasses", "Amu", "Part", "U
 ProtectedAsIs == {"Convert", "ConvertParams", "CalcMasses", "Amu", "TNewMass", "TNewGauge", "TAmu", "IntToType"}
 Protected(c) == Protection = "full" \/ c \in ProtectedAsIs
 
-VARIABLES m,        \* MSSM handle: [st, tb, calc]
+VARIABLES m,        \* MSSM handle: [st, tb, calc, tach (a slepton soft mass squared is negative), flag (a problem is flagged: no / calc / maybe)]
           t,        \* THDM handle: [st, badenum]
           aborted,  \* an exception escaped a wrapper / a buffer was overrun
           hist
 vars == <<m, t, aborted, hist>>
 
-Init == /\ m = [st |-> "null", tb |-> "unset", calc |-> FALSE]
+Init == /\ m = [st |-> "null", tb |-> "unset", calc |-> FALSE, tach |-> FALSE, flag |-> "no"]
         /\ t = [st |-> "null", badenum |-> FALSE]
         /\ aborted = FALSE /\ hist = << >>
 
@@ -63,10 +63,13 @@ TThrows(c) == c \in {"TAmu", "TUnc"} /\ t.badenum
 Escapes(c, throws) == throws /\ ~Protected(c)
 
 MNew == /\ CanCall /\ m.st \in {"null", "freed"}
-        /\ m' = [st |-> "live", tb |-> "unset", calc |-> FALSE] /\ Rec("New", "-")
+        /\ m' = [st |-> "live", tb |-> "unset", calc |-> FALSE, tach |-> FALSE, flag |-> "no"] /\ Rec("New", "-")
         /\ UNCHANGED <<t, aborted>>
 \* a complete valid parameter point through the setters (about 40 C calls)
-MPreset == /\ CanCall /\ m.st = "live" /\ m' = [m EXCEPT !.tb = "fin"] /\ Rec("Preset", "-") /\ UNCHANGED <<t, aborted>>
+MPreset == /\ CanCall /\ m.st = "live" /\ m' = [m EXCEPT !.tb = "fin", !.tach = FALSE] /\ Rec("Preset", "-") /\ UNCHANGED <<t, aborted>>
+\* ml2(1,1) < 0: the smuon / sneutrino sector becomes tachyonic, the next spectrum calculation is refused with
+\* gm2calc_PhysicalProblem and leaves the problem flagged (non-empty problem string for the string getters)
+MSetTachyon == /\ CanCall /\ m.st = "live" /\ m' = [m EXCEPT !.tach = TRUE] /\ Rec("SetTachyon", "-") /\ UNCHANGED <<t, aborted>>
 MFree == /\ CanCall /\ m.st = "live" /\ m' = [m EXCEPT !.st = "freed"] /\ Rec("Free", "-") /\ UNCHANGED <<t, aborted>>
 MFreeNull == /\ CanCall /\ Rec("FreeNull", "-") /\ UNCHANGED <<m, t, aborted>>          \* free(NULL) is a no-op
 
@@ -82,8 +85,12 @@ MCall(c) == /\ CanCall /\ m.st = "live" /\ c \in {"Get", "GetTB", "GetMass", "Ge
 
 MCalc(c) == /\ CanCall /\ m.st = "live" /\ c \in {"Convert", "ConvertParams", "CalcMasses"}
             /\ aborted' = Escapes(c, MThrows(c))
-            /\ \E ok \in BOOLEAN :            \* the calculation may succeed or be refused
-                  m' = [m EXCEPT !.calc = ok /\ ~MThrows(c)]
+            \* flag: "calc" - calculate_masses refused a tachyonic point and left the problem flagged (certain);
+            \*       "maybe" - a conversion was refused on a tachyonic point (it may fail earlier, on missing pole masses)
+            /\ IF m.tach /\ ~MThrows(c)
+               THEN m' = [m EXCEPT !.calc = FALSE, !.flag = IF c = "CalcMasses" THEN "calc" ELSE "maybe"]
+               ELSE \E ok \in BOOLEAN :            \* the calculation may succeed or be refused
+                      m' = [m EXCEPT !.calc = ok /\ ~MThrows(c), !.flag = IF ok /\ ~MThrows(c) THEN "no" ELSE m.flag]
             /\ Rec(c, "-") /\ UNCHANGED t
 
 \* string getters: len = 0 must write nothing; the unchanged tree writes msg[len - 1] with len - 1 wrapped
@@ -102,7 +109,7 @@ TFree == /\ CanCall /\ t.st = "live" /\ t' = [t EXCEPT !.st = "freed"] /\ Rec("T
 TMisc(c) == /\ CanCall /\ c \in {"TFreeNull", "SmDefault", "ConfigDefault", "IntToType"}
             /\ Rec(c, "-") /\ UNCHANGED <<m, t, aborted>>
 
-Next == \/ MNew \/ MPreset \/ MFree \/ MFreeNull
+Next == \/ MNew \/ MPreset \/ MFree \/ MFreeNull \/ MSetTachyon
         \/ \E v \in ValCls : MSetTB(v)
         \/ \E c \in {"Set", "SetPole", "SetVerbose"}, v \in ValCls : MSet(c, v)
         \/ \E c \in MCalls : MCall(c) \/ MCalc(c)
